@@ -26,7 +26,10 @@ CLAIM = ('Three necessary conditions of chunk-boundary independence in readChunk
          'agreeing values; char() refills at the chunk end and unget() prepends at a chunk start. Whatever '
          'readChunk publishes as the chunk has passed the lone-CR replacement; the position of the chunk being '
          'replaced is accumulated from its old size on every path that replaces or resets it; charsUntil '
-         "treats 'no match' as a stop only when the offset is not at the chunk end.")
+         "treats 'no match' as a stop only when the offset is not at the chunk end. BufferedStream records "
+         'every read; the decoder is the one of the resolved encoding object; reset() re-initialises every '
+         'attribute the reading methods write; unget() at a chunk start compensates the position counters '
+         '(known finding: it does not).')
 NOT_DECIDED = ('everything else: line/column arithmetic inside _position, BufferedStream replay, decoder behaviour, '
                'equality of trees and error lists for all segmentations.')
 MODULES = ["_inputstream.py"]
@@ -356,6 +359,9 @@ def thorough(ctx):
 def mutants():
     from ..selftest import TextMutant as T
     return [
+        T("skip-empty-reads", REL, "        self.buffer.append(data)\n        self.position[0] += 1\n        self.position[1] = len(data)\n        return data", "        if data:\n            self.buffer.append(data)\n            self.position[0] += 1\n            self.position[1] = len(data)\n        return data", "C05.7"),
+        T("counters-init-only", REL, "        # number of (complete) lines in previous chunks\n        self.prevNumLines = 0\n        # number of columns in the last line of the previous chunk\n        self.prevNumCols = 0\n\n        # Deal with CR LF and surrogates split over chunk boundaries", "        # Deal with CR LF and surrogates split over chunk boundaries", "C05.9"),
+        T("stdlib-codec", REL, "self.charEncoding[0].codec_info.streamreader(self.rawStream, 'replace')", "codecs.getreader(self.charEncoding[0].name)(self.rawStream, 'replace')", "C05.8"),
         T("charsuntil-stop-at-chunk-end", REL, "                if self.chunkOffset != self.chunkSize:\n                    break",
           "                if self.chunk:\n                    break", "C05.6"),
         T("publish-before-normalise", REL, "        # Replace invalid characters\n        data = data.replace(\"\\r\\n\", \"\\n\")\n        data = data.replace(\"\\r\", \"\\n\")\n\n        self.chunk = data\n        self.chunkSize = len(data)\n",
